@@ -26,19 +26,19 @@ def gen_tracer(repo):
     flags = _flag_consts(X._strip_comments(X._read(repo, 'api/include/opentelemetry/trace/trace_flags.h')))
     for k in ('kIsSampled', 'kIsRandom'):
         if k not in flags:
-            raise X.ExtractError(f'trace_flags.h: {k} not found')
+            raise X.ShapeChanged(f'trace_flags.h: {k} not found')
     txt = X._strip_comments(X._read(repo, 'sdk/src/trace/tracer.cc'))
     txt = re.sub(r'#if\s+0\b.*?#endif', ' ', txt, flags=re.S)       # dead blocks
     body = X._one(r'Tracer::StartSpan\s*\(.*?\n\}', txt, 'Tracer::StartSpan').group(0)
     masks = re.findall(r'flags\s*&=\s*(?:opentelemetry::)?trace::TraceFlags::(k\w+)\s*;', body)
     if len(masks) != 1 or masks[0] not in flags:
-        raise X.ExtractError(f'tracer.cc: expected exactly one live `flags &= TraceFlags::k…;`, found {masks}')
+        raise X.ShapeChanged(f'tracer.cc: expected exactly one live `flags &= TraceFlags::k…;`, found {masks}')
     ors = re.findall(r'flags\s*\|=\s*(?:opentelemetry::)?trace::TraceFlags::(k\w+)\s*;', body)
     if ors != ['kIsSampled']:
-        raise X.ExtractError(f'tracer.cc: expected `flags |= TraceFlags::kIsSampled;`, found {ors}')
+        raise X.ShapeChanged(f'tracer.cc: expected `flags |= TraceFlags::kIsSampled;`, found {ors}')
     rnd = re.findall(r'flags\s*=\s*(?:opentelemetry::)?trace::TraceFlags::(k\w+)\s*;', body)
     if rnd != ['kIsRandom']:
-        raise X.ExtractError(f'tracer.cc: expected `flags = TraceFlags::kIsRandom;`, found {rnd}')
+        raise X.ShapeChanged(f'tracer.cc: expected `flags = TraceFlags::kIsRandom;`, found {rnd}')
     out = [X.HDR, 'namespace Otel.Gen\n',
            '/-- `TraceFlags::kIsSampled` -/', f'def tracerIsSampled : Nat := {flags["kIsSampled"]}\n',
            '/-- `TraceFlags::kIsRandom` -/', f'def tracerIsRandom : Nat := {flags["kIsRandom"]}\n',
